@@ -56,6 +56,9 @@ func main() {
 		os.Exit(2)
 	}
 	start := time.Now()
+	if os.Getenv("GOGC") == "" {
+		debug.SetGCPercent(200)
+	}
 	code := 2
 	func() {
 		defer func() {
@@ -88,7 +91,7 @@ func main() {
 		r := NewR(w, pd.ID, *tier)
 		pd.Run(r)
 		if *tier == "thorough" && os.Getenv("ARVCHECK_SELFTEST") == "" {
-			max := 150
+			max := 40
 			if m := os.Getenv("VERIF_SELFTEST_MAX"); m != "" {
 				if n, err := strconv.Atoi(m); err == nil {
 					max = n
